@@ -77,10 +77,13 @@ class Fold:
         if is_agg:
             return self._agg(target, scope[ACC_TREE])
         try:
-            return self._fold(target_iter(target, scope))
+            iterator = target_iter(target, scope)
         except UnregisteredTarget as ut:
             raise FoldError('can only %s on iterable targets, not %s type (%s)'
                             % (self.__class__.__name__, type(target).__name__, ut))
+        # (outside the try: an UnregisteredTarget raised while iterating or by op is not
+        # about this target)
+        return self._fold(iterator)
 
     def _fold(self, iterator):
         ret, op = self.init(), self.op
